@@ -349,7 +349,7 @@ func (c *compiler) compileParser(file ast.File) {
 	addSyntheticInputs(source)
 
 	// Prepare the model for code generation.
-	c.resolver.addNonterms(source)
+	c.resolver.addNonterms(source, c.out.Options.WriteBison)
 	c.out.Syms = c.resolver.Syms
 
 	var lookahead int
